@@ -200,7 +200,7 @@ def scope_lock_independence(arg):
         for t in ths:
             t.start()
         for t in ths:
-            t.join(timeout=10)
+            t.join(timeout=60)
     if not done["run"]:
         fails.append({"what": "run_waits_for_original_scope", "detail": "uberjob.run did not finish while another thread was inside plan.scope on the original"})
     if not done["copy"]:
